@@ -35,6 +35,7 @@ class ShardCtx:
         self.rng = random.Random((seed * 1000003 + shard * 7919 + 17) & 0xFFFFFFFF)
         self._out = open(out_path, "a") if out_path else None
         self._stats = Counter()
+        self._totals = Counter()
         self._inconc = Counter()
         self._nsamples = 0
         self.t0 = time.time()
@@ -50,6 +51,11 @@ class ShardCtx:
 
     def stat(self, key, n=1):
         self._stats[key] += n
+        self._totals[key] += n
+
+    def stat_count(self, key):
+        """running total of a counter in this shard (flushes do not reset it)"""
+        return self._totals[key]
 
     def inconclusive(self, reason, n=1):
         self._inconc[reason] += n
